@@ -12,4 +12,5 @@ git -C /repo checkout -- .
 rm -f /verif/replays/${ID}-*.json
 echo "exit=$RC"
 # rebuild the harness against the restored tree so a later direct ./target/release/vengine is not stale
-( cd /verif/engine && CARGO_TARGET_DIR=/verif/target RUSTFLAGS="--cfg pytest_language_server_verif" cargo build --release --offline >/dev/null 2>&1 )
+( cd /verif/engine && CARGO_TARGET_DIR=/verif/target RUSTFLAGS="--cfg pytest_language_server_verif" cargo build --release --offline >/dev/null 2>&1
+  CARGO_TARGET_DIR=/verif/target RUSTFLAGS="--cfg pytest_language_server_verif" cargo build --release --offline --manifest-path /repo/Cargo.toml --bin pytest-language-server >/dev/null 2>&1 )
